@@ -15,7 +15,7 @@ static vc::Args A;
 typedef std::vector<std::pair<std::string, std::string>> Pairs;
 struct Fields { // what libhtp reports for one transaction, captured at TRANSACTION_COMPLETE
     std::string method, uri, proto, host; int port = -2; Pairs reqh, resh, cookies, qparams; std::string user, pass; bool has_user = false, has_pass = false;
-    std::string rproto, status, message; bool has_message = false; int statusn = 0; std::string req_body, res_body; bool captured = false; int auth_type = 0;
+    std::string rproto, status, message; bool has_message = false; int statusn = 0; std::string req_body, res_body; bool captured = false; int auth_type = 0; bool has_req_ct = false, has_res_ct = false; std::string req_ct, res_ct;
     std::vector<std::string> lookup_errors;
 };
 static std::string bs(bstr *b) { return b ? std::string((const char *)bstr_ptr(b), bstr_len(b)) : std::string(); }
@@ -66,6 +66,11 @@ static std::pair<std::string, std::string> compare(const hg::Msg &rq, const hg::
         if (!f.has_pass || f.pass != dec.substr(c + 1)) return D("request_auth_password", f.pass, dec.substr(c + 1)); }
     } else if (f.has_user || f.has_pass) return {"request_credentials", "credentials invented"};
     credentials_done:
+    // media type: the field value up to the first ';' ',' or SP, lower-cased (htp_parse_ct_header; documented in htp.h as "lowercased MIME type")
+    { auto media = [&](const hg::Msg &m, bool &present) { std::string v; present = false; if (const hg::Hdr *h = m.find("content-type")) { present = true; v = h->logical(); size_t a = 0; while (a < v.size() && (v[a] == ' ' || v[a] == '\t')) a++; v = v.substr(a); v = v.substr(0, v.find_first_of(";, ")); v = lower(v); } return v; };
+      bool pq, ps; std::string eq = media(rq, pq), es = media(rs, ps);
+      if (pq && (!f.has_req_ct || f.req_ct != eq)) return D("request_content_type", f.req_ct, eq);
+      if (ps && rs.framing != hg::F_NONE && (!f.has_res_ct || f.res_ct != es)) return D("response_content_type", f.res_ct, es); } // (derived only for responses that have a body)
     // query parameters
     { size_t q = rq.target.find('?'); Pairs eq; if (q != std::string::npos) { std::string qs = rq.target.substr(q + 1); size_t h = qs.find('#'); if (h != std::string::npos) qs = qs.substr(0, h); size_t p = 0; std::vector<std::string> pieces; for (;;) { size_t e = qs.find('&', p); if (e == std::string::npos) { pieces.push_back(qs.substr(p)); break; } pieces.push_back(qs.substr(p, e - p)); p = e + 1; } if (!pieces.empty() && pieces.back().empty()) pieces.pop_back(); for (auto &pc : pieces) { size_t e = pc.find('='); eq.push_back({refdec::urldecode(e == std::string::npos ? pc : pc.substr(0, e), ucfg).s, e == std::string::npos ? "" : refdec::urldecode(pc.substr(e + 1), ucfg).s}); } }
       if (f.qparams != eq) return {"query_parameters", "query parameters reported " + show(f.qparams) + ", expected " + show(eq)}; }
@@ -96,7 +101,7 @@ static void run_exchange(int pers, const std::string &rq, const std::string &rs,
         H(tx->request_headers, f.reqh); H(tx->response_headers, f.resh);
         if (tx->request_cookies) for (size_t i = 0, n = htp_table_size(tx->request_cookies); i < n; i++) { bstr *k = NULL; bstr *v = (bstr *)htp_table_get_index(tx->request_cookies, i, &k); f.cookies.push_back({bs(k), bs(v)}); }
         for (size_t i = 0, n = htp_table_size(tx->request_params); i < n; i++) { htp_param_t *pr = (htp_param_t *)htp_table_get_index(tx->request_params, i, NULL); if (pr && pr->source == HTP_SOURCE_QUERY_STRING) f.qparams.push_back({bs(pr->name), bs(pr->value)}); }
-        f.has_user = tx->request_auth_username != NULL; f.user = bs(tx->request_auth_username); f.has_pass = tx->request_auth_password != NULL; f.pass = bs(tx->request_auth_password); f.auth_type = tx->request_auth_type;
+        f.has_user = tx->request_auth_username != NULL; f.user = bs(tx->request_auth_username); f.has_pass = tx->request_auth_password != NULL; f.pass = bs(tx->request_auth_password); f.auth_type = tx->request_auth_type; f.has_req_ct = tx->request_content_type != NULL; f.req_ct = bs(tx->request_content_type); f.has_res_ct = tx->response_content_type != NULL; f.res_ct = bs(tx->response_content_type);
         f.rproto = bs(tx->response_protocol); f.status = bs(tx->response_status); f.statusn = tx->response_status_number; f.has_message = tx->response_message != NULL; f.message = bs(tx->response_message);
         // case-insensitive lookup with a scrambled spelling returns the same header
         for (int side = 0; side < 2; side++) { htp_table_t *t = side ? tx->response_headers : tx->request_headers; for (size_t i = 0, n = htp_table_size(t); i < n; i++) { htp_header_t *h = (htp_header_t *)htp_table_get_index(t, i, NULL); if (!h) continue; std::string nm = bs(h->name); if (nm.empty() || nm.find('\0') != std::string::npos) continue; std::string sc = nm; for (size_t k = 0; k < sc.size(); k++) sc[k] = (char)((k + i) % 2 ? toupper((unsigned char)sc[k]) : tolower((unsigned char)sc[k])); if (htp_table_get_c(t, sc.c_str()) != h) f.lookup_errors.push_back("htp_table_get_c(\"" + vc::esc(sc) + "\") does not return header \"" + vc::esc(nm) + "\""); } }
